@@ -1218,6 +1218,7 @@ func (h *c15) queryNames(resp *responder.Responder, domain dns.Name) {
 			h.out.OracleFail("C15:query-roundtrip", fmt.Sprintf("responder extracted %d bytes from the query of a %d-byte packet", len(payload), n), line)
 		}
 		h.out.Count("query:roundtrip")
+		h.recased(resp, domain, &q, p)
 	}
 	h.out.Note(fmt.Sprintf("largest packet that fits a query under %s: %d bytes", domain.String(), limit))
 	// suffix matching: other domain, other case
@@ -1479,6 +1480,7 @@ func (chanAddr) String() string  { return "responder.mem" }
 type chanConn struct {
 	in, out chan []byte
 	closed  chan struct{}
+	path    func([]byte) []byte // what the path does to a datagram on its way out (nil: nothing)
 }
 
 func (c *chanConn) Read(p []byte) (int, error) {
@@ -1490,8 +1492,12 @@ func (c *chanConn) Read(p []byte) (int, error) {
 	}
 }
 func (c *chanConn) Write(p []byte) (int, error) {
+	d := append([]byte(nil), p...)
+	if c.path != nil {
+		d = c.path(d)
+	}
 	select {
-	case c.out <- append([]byte(nil), p...):
+	case c.out <- d:
 		return len(p), nil
 	case <-c.closed:
 		return 0, io.ErrClosedPipe
@@ -1527,6 +1533,7 @@ type c15Link struct {
 	newReq    func() (*Requester, error)
 	abandoned map[string]bool
 	lossy     bool      // a datagram may be lost (real socket): one exchange that does not complete is no verdict
+	path      func([]byte) []byte // mem link: what the resolvers on the path do to a query (see recaseQuery)
 	client    *chanConn // mem link: the requester end that responses go to
 }
 
@@ -1774,7 +1781,7 @@ func (h *c15) newLink(t *testing.T, privkey []byte, domain string, mem bool) *c1
 		resp.VerifSetTransport(server)
 		l.newReq = func() (*Requester, error) {
 			// the client end of the link; the requester's own packet layer (DNSPacketConn) on top of it
-			client := &chanConn{in: make(chan []byte, 64), out: toResp, closed: make(chan struct{})}
+			client := &chanConn{in: make(chan []byte, 64), out: toResp, closed: make(chan struct{}), path: l.path}
 			l.mu.Lock()
 			if l.client != nil {
 				_ = l.client.Close() // ends the packet layer of an abandoned requester
@@ -1801,6 +1808,15 @@ func (h *c15) exchanges(t *testing.T, privkey []byte, domain string) {
 	pc.Close()
 	// in memory: every request length, nothing can be lost
 	h.newLink(t, privkey, domain, true).run(true, vlib.Budget(60, 1500))
+	// in memory, behind resolvers that rewrite the letter case of the query name (DNS names compare
+	// case-insensitively; 0x20 randomisation, case normalisation): every exchange must still complete
+	for kind := 0; kind < recaseKinds; kind++ {
+		l := h.newLink(t, privkey, domain, true)
+		l.name = fmt.Sprintf("mem-recase%d", kind)
+		k := kind
+		l.path = func(d []byte) []byte { return h.recaseQuery(d, k) }
+		l.run(false, vlib.Budget(6, 150))
+	}
 	// over a real UDP socket on loopback
 	h.newLink(t, privkey, domain, false).run(vlib.Tier() == "thorough", vlib.Budget(25, 300))
 }
@@ -2347,8 +2363,13 @@ func (h *c15) replay(t *testing.T, path string) {
 			if err != nil {
 				t.Fatal(err)
 			}
-			for _, mem := range []bool{true, false} {
-				l := h.newLink(t, priv, "t.example.com", mem)
+			for li := -1; li <= recaseKinds; li++ {
+				l := h.newLink(t, priv, "t.example.com", li != recaseKinds)
+				if li >= 0 && li < recaseKinds {
+					k := li
+					l.name = fmt.Sprintf("mem-recase%d", k)
+					l.path = func(d []byte) []byte { return h.recaseQuery(d, k) }
+				}
 				req, err := l.newReq()
 				if err != nil {
 					t.Fatal(err)
@@ -2367,6 +2388,10 @@ func (h *c15) replay(t *testing.T, path string) {
 			continue
 		}
 		switch p[1] {
+		case "recase":
+			h.replayRecase(t, unhex(p[len(p)-1]))
+		case "alive":
+			h.alive(1)
 		case "anyinto":
 			// the destination dimension is cheap and seeded: all of it again
 			h.destinations()
@@ -2464,6 +2489,7 @@ func TestVerifC15(t *testing.T) {
 	h.obfuscators()
 	h.anys()
 	h.destinations()
+	h.alive(1)
 	h.exchanges(t, priv, domain)
 	h.bursts(t, priv, domain, vlib.Budget(40, 600))
 }
